@@ -205,6 +205,9 @@ package scheduler
 //@   props C06 C02
 //@   at call remove#2 ghostset disarmed[w] = 1
 //@   ensures a-disarmed-worker-is-always-rearmed: w != nil && disarmed(w) == 1 ==> w.cleanupKey != 0
+//@   at call addSizeClassQueue#1 ghostset disarmed[nil] = 1
+//@   at call isActive#2 assert an-existing-queue-with-a-live-worker-is-not-scheduled-for-removal: disarmed(nil) == 0 ==> scq.cleanupKey == 0
+//@   at call Inc#1 assert an-existing-queue-with-a-live-worker-is-not-scheduled-for-removal: disarmed(nil) == 0 ==> scq.cleanupKey == 0
 //@   ensures deadline-counts-from-the-end-of-the-call: w != nil && disarmed(w) == 1 ==>
 //@             armedat(&w.cleanupKey) == bq.now + bq.configuration.WorkerWithNoSynchronizationsTimeout
 
@@ -503,3 +506,25 @@ package scheduler
 //@   props C04
 //@   assume len(i.executingWorkers) < MaxInt64 && len(j.executingWorkers) < MaxInt64 -- a map cannot hold 2^63 entries
 //@   safety nowrap
+
+// TerminateWorkers marks every worker that matches the pattern as terminating,
+// whatever the worker is doing at that moment (executing, parked, between two
+// Synchronize calls, blocked because it is drained): a terminating worker never
+// receives a new task (C05). termowed(nil): matching workers seen that have not
+// been marked yet.
+//@ ghost map termowed(ref) int zero
+//@ func (*InMemoryBuildQueue).TerminateWorkers
+//@   props C05
+//@   at call workerMatchesPattern#1 ghostset termowed[nil] = termowed(nil) + ite(r0, 1, 0)
+//@   at call markWorkerTerminating#1 assert the-matching-worker-itself-is-marked: arg0 == scq && arg1 == w
+//@   at call markWorkerTerminating#1 ghostset termowed[nil] = termowed(nil) - 1
+//@   loop 0 exhaustive
+//@   loop 0 invariant every-matching-worker-so-far-is-marked-terminating: termowed(nil) == 0
+//@   loop 1 exhaustive
+//@   loop 1 invariant every-matching-worker-so-far-is-marked-terminating: termowed(nil) == 0
+
+// A size class queue that a worker synchronizes against is not scheduled for
+// removal: a pending removal is cancelled as soon as a worker shows up again,
+// otherwise the queue (with the worker and its task) is dropped later although
+// it is in use (C01, C06).
+// (the ensures clause is part of the contract of Synchronize above.)
